@@ -219,6 +219,45 @@ def check(ctx):
     ctx.clause = "12-classifiers"
     _classifiers(ctx, repo, m)
 
+    # ---- 13 signal predicates and the tick loop -----------------------------------------------------------------------------
+    ctx.clause = "13-signals-and-tick"
+    sigs = {"is_set_release_signal_from_local": ["not self.association.state_is_active"],
+            "is_set_release_signal_from_peer": ["self.association.transport._stop_threads"],
+            "has_recv_queue_message": ["not self.association._recv_messages.empty()"],
+            "has_send_queue_message": ["not self.association._send_messages.empty()"]}
+    for name, wants in sigs.items():
+        fn = ctx.need(st.methods.get(name), f"State.{name}")
+        rets = [ast.unparse(n.value) for n in walk_no_nested(fn) if isinstance(n, ast.Return) and n.value is not None]
+        ctx.decide(rets == wants, "R-TABLE/signals", f"{st.qual}.{name}", st.where(fn), f"{name} == {wants[0]}",
+                   f"{name} returns {rets}: the event the state machine reacts to is no longer `{wants[0]}`", key=name)
+    smc = ctx.need(repo.cls(f"{psm.SM}.PeerStateMachine"), "PeerStateMachine")
+    cl = ctx.need(smc.methods.get("close"), "PeerStateMachine.close")
+    ctx.decide("self.association.state_is_active = False" in ast.unparse(cl), "R-TABLE/signals", f"{smc.qual}.close", smc.where(cl),
+               "a local close clears state_is_active (the local release signal)",
+               "PeerStateMachine.close does not raise the local release signal (state_is_active = False): a local stop is never seen",
+               key="local_close")
+    start = next((fn for n, fn in smc.methods.items() if n.endswith("__start")), None)
+    ctx.need(start, "PeerStateMachine.__start")
+    loop = next((x for x in walk_no_nested(start) if isinstance(x, ast.While)), None)
+    body = [ast.unparse(x) for x in (loop.body if loop else [])]
+    ok = loop is not None and "self.current_state.run()" in body and \
+        any(b.endswith("= self.current_state.next_state") for b in body) and \
+        any(b.startswith("self.current_state = self.get_next_state(") for b in body)
+    if ok:
+        var = next(b.split(" = ")[0] for b in body if b.endswith("= self.current_state.next_state"))
+        ok = f"self.current_state = self.get_next_state({var})" in body and \
+            body.index("self.current_state.run()") < body.index(f"{var} = self.current_state.next_state") < \
+            body.index(f"self.current_state = self.get_next_state({var})")
+    ctx.decide(ok, "R-FLOW/tick", f"{smc.qual}.__start", smc.where(start),
+               "each tick runs the current state and moves to get_next_state(its next_state)",
+               "the tick loop does not run the current state and then adopt get_next_state(current_state.next_state)", key="tick")
+    gn = smc.methods.get("get_next_state")
+    rets = [ast.unparse(n.value) for n in walk_no_nested(gn) if isinstance(n, ast.Return) and n.value is not None]
+    p0 = [a.arg for a in gn.args.args if a.arg != "self"][0]
+    ctx.decide(set(rets) <= {f"self.states[{p0}]", "self.states[CLOSED]"} and f"self.states[{p0}]" in rets, "R-FLOW/tick",
+               f"{smc.qual}.get_next_state", smc.where(gn), "the state object returned is the table entry of the requested state",
+               f"get_next_state returns {rets}", key="returns_requested")
+
     # answers sent within the handler that built them (shared with C07 clause 4)
     ctx.clause = "5b-answers-sent-in-handler"
     for c, (ci, ps) in table.items():
